@@ -7,3 +7,67 @@ package message
 //@   prop C04
 //@   ensures nonnil: err == nil ==> metadata != nil
 //@   ensures count: err == nil ==> metadata.ColumnCount >= 0
+
+// ---- C20: STARTUP option accessors are mutually consistent ---------------------------------------------------
+
+// after a setter, exactly the option under key holds v and no other option changed
+//@ spec optionSet(m *Startup, key string, v string) bool = has(m.Options, key) && m.Options[key] == v && (forall k string :: k != key ==> has(m.Options, k) == old(has(m.Options, k)) && m.Options[k] == old(m.Options[k]))
+//@ spec optionRemoved(m *Startup, key string) bool = !has(m.Options, key) && (forall k string :: k != key ==> has(m.Options, k) == old(has(m.Options, k)) && m.Options[k] == old(m.Options[k]))
+
+//@ func (*Startup).SetClientId
+//@   prop C20
+//@   requires opts: m.Options != nil
+//@   ensures set: optionSet(m, StartupOptionClientId, clientId)
+//@ func (*Startup).GetClientId
+//@   prop C20
+//@   ensures get: result == m.Options[StartupOptionClientId]
+
+//@ func (*Startup).SetApplicationName
+//@   prop C20
+//@   requires opts: m.Options != nil
+//@   ensures set: optionSet(m, StartupOptionApplicationName, applicationName)
+//@ func (*Startup).GetApplicationName
+//@   prop C20
+//@   ensures get: result == m.Options[StartupOptionApplicationName]
+
+//@ func (*Startup).SetApplicationVersion
+//@   prop C20
+//@   requires opts: m.Options != nil
+//@   ensures set: optionSet(m, StartupOptionApplicationVersion, applicationVersion)
+//@ func (*Startup).GetApplicationVersion
+//@   prop C20
+//@   ensures get: result == m.Options[StartupOptionApplicationVersion]
+
+//@ func (*Startup).SetDriverName
+//@   prop C20
+//@   requires opts: m.Options != nil
+//@   ensures set: optionSet(m, StartupOptionDriverName, driverName)
+//@ func (*Startup).GetDriverName
+//@   prop C20
+//@   ensures get: result == m.Options[StartupOptionDriverName]
+
+//@ func (*Startup).SetDriverVersion
+//@   prop C20
+//@   requires opts: m.Options != nil
+//@   ensures set: optionSet(m, StartupOptionDriverVersion, driverVersion)
+//@ func (*Startup).GetDriverVersion
+//@   prop C20
+//@   ensures get: result == m.Options[StartupOptionDriverVersion]
+
+//@ func (*Startup).SetCompression
+//@   prop C20
+//@   requires opts: m.Options != nil
+//@   ensures set: compression != primitive.CompressionNone ==> optionSet(m, StartupOptionCompression, string(compression))
+//@   ensures unset: compression == primitive.CompressionNone ==> optionRemoved(m, StartupOptionCompression)
+//@ func (*Startup).GetCompression
+//@   prop C20
+//@   ensures get: result == ite(has(m.Options, StartupOptionCompression), primitive.Compression(m.Options[StartupOptionCompression]), primitive.CompressionNone)
+
+//@ func (*Startup).SetThrowOnOverload
+//@   prop C20
+//@   requires opts: m.Options != nil
+//@   ensures set: throwOnOverload ==> optionSet(m, StartupOptionThrowOnOverload, "1")
+//@   ensures unset: !throwOnOverload ==> optionRemoved(m, StartupOptionThrowOnOverload)
+//@ func (*Startup).IsThrowOnOverload
+//@   prop C20
+//@   ensures get: result == (has(m.Options, StartupOptionThrowOnOverload) && m.Options[StartupOptionThrowOnOverload] == "1")
